@@ -46,10 +46,10 @@ impl Scope {
     pub(crate) fn height(&self) -> i32 {
         match self {
             Self::Top => 0,
-            Self::Bind(weak) => {
-                let strong = weak.upgrade().unwrap();
-                strong.height()
-            }
+            /* The bind is gone once both of its nodes were dropped. Nodes it created can outlive
+            it through user handles; by then it has invalidated them, and an invalid node that
+            becomes necessary (it is observed) still asks for its scope's height. */
+            Self::Bind(weak) => weak.upgrade().map_or(0, |strong| strong.height()),
         }
     }
     pub(crate) fn is_valid(&self) -> bool {
